@@ -38,6 +38,8 @@ def c01() -> List[M]:
           "            if self.command.validator(data):\n                logger.debug(\"Received: %s\", data.hex())\n                self._retry = 0\n                self.response_future.set_result(data)\n            else:\n                logger.debug(\"Received invalid response: %s\", data.hex())\n                asyncio",
           "            if self.command.validator(data):\n                logger.debug(\"Received: %s\", data.hex())\n                self._retry = 0\n                data = data + b''\n                self.response_future.set_result(data)\n            else:\n                logger.debug(\"Received invalid response: %s\", data.hex())\n                asyncio",
           "C01.R1"),
+        M("C01", "read-command-validator-rebound", P, "            create_modbus_rtu_request(comm_addr, MODBUS_READ_CMD, offset, count),\n            MODBUS_READ_CMD, offset, count)\n",
+          "            create_modbus_rtu_request(comm_addr, MODBUS_READ_CMD, offset, count),\n            MODBUS_READ_CMD, offset, count)\n        self.validator = lambda x: len(x) > 4\n", "C01.R1"),
         M("C01", "benign-validator-result-in-variable", P,
           "            if self.command.validator(data):\n                logger.debug(\"Received: %s\", data.hex())\n                self._retry = 0\n                self.response_future.set_result(data)\n            else:\n                logger.debug(\"Received invalid response: %s\", data.hex())\n                asyncio",
           "            valid = self.command.validator(data)\n            if valid:\n                logger.debug(\"Received: %s\", data.hex())\n                self._retry = 0\n                self.response_future.set_result(data)\n            else:\n                logger.debug(\"Received invalid response: %s\", data.hex())\n                asyncio",
@@ -261,6 +263,8 @@ def c06() -> List[M]:
           "        self.response_future = asyncio.get_running_loop().create_future()\n        self._partial_data = None\n        self._partial_missing = 0\n        payload = command.request_bytes()\n        if self._retry > 0:\n            logger.debug(\"Sending: %s - retry #%s/%s\", self.command, self._retry, self.retries)\n        else:\n            logger.debug(\"Sending: %s\", self.command)\n        self._transport.write(payload)", "C06.R5"),
         M("C06", "udp-timer-cancel-moved-to-success-branch", P, "        \"\"\"On datagram received\"\"\"\n        if self._timer:\n            self._timer.cancel()\n            self._timer = None\n        try:", "        \"\"\"On datagram received\"\"\"\n        try:", "C06.R6"),
         M("C06", "tcp-timer-not-cancelled-on-data", P, "        \"\"\"On data received\"\"\"\n        if self._timer:\n            self._timer.cancel()\n", "        \"\"\"On data received\"\"\"\n", "C06.R6"),
+        M("C06", "ensure-lock-always-new", P, "        if self._lock and self._running_loop == asyncio.get_event_loop():\n            return self._lock\n", "", "C06.R7"),
+        M("C06", "ensure-lock-new-when-unlocked", P, "        if self._lock and self._running_loop == asyncio.get_event_loop():", "        if self._lock and self._lock.locked() and self._running_loop == asyncio.get_event_loop():", "C06.R7"),
         M("C06", "benign-udp-finally-close-before-release", P, UDP_FINALLY, "        finally:\n            if not self.keep_alive:\n                self._close_transport()\n            if self._lock and self._lock.locked():\n                self._lock.release()\n", "clean"),
     ]
 
@@ -337,6 +341,9 @@ def c10() -> List[M]:
         M("C10", "udp-connection-lost-keeps-transport", P, "            logger.debug(\"Socket closed.\")\n        self._close_transport()", "            logger.debug(\"Socket closed.\")", "C10.R4"),
         M("C10", "ensure-lock-keeps-old-transport", P, "        self._running_loop = asyncio.get_event_loop()\n        self._close_transport()\n", "        self._running_loop = asyncio.get_event_loop()\n", "C10.R4"),
         M("C10", "es-sends-directly", ES, "        response = await self._read_from_socket(self._READ_DEVICE_RUNNING_DATA)\n", "        response = ProtocolResponse((await self._protocol.send_request(self._READ_DEVICE_RUNNING_DATA)).result(), self._READ_DEVICE_RUNNING_DATA)\n", "C10.R3"),
+        M("C10", "udp-success-closes-socket", P, "                self._retry = 0\n                self.response_future.set_result(data)\n            else:\n                logger.debug(\"Received invalid response: %s\", data.hex())\n                asyncio", "                self._retry = 0\n                self.response_future.set_result(data)\n                self._close_transport()\n            else:\n                logger.debug(\"Received invalid response: %s\", data.hex())\n                asyncio", "C10.R5"),
+        M("C10", "udp-finally-closes-always", P, "            if self._lock and self._lock.locked():\n                self._lock.release()\n            if not self.keep_alive:\n                self._close_transport()\n\n    def _send_request", "            if self._lock and self._lock.locked():\n                self._lock.release()\n            self._close_transport()\n\n    def _send_request", "C10.R5|C10.R3"),
+        M("C10", "tcp-success-closes-connection", P, "            await response_future\n            return response_future\n        except asyncio.CancelledError:\n            if self._retry < self.retries:\n                if self._timer:", "            await response_future\n            self._close_transport()\n            return response_future\n        except asyncio.CancelledError:\n            if self._retry < self.retries:\n                if self._timer:", "C10.R5"),
         M("C10", "benign-connect-guard-is-none", P, "        if not self._transport or self._transport.is_closing():\n            self._transport, self.protocol = await asyncio.get_running_loop().create_datagram_endpoint(",
           "        if self._transport is None or self._transport.is_closing():\n            self._transport, self.protocol = await asyncio.get_running_loop().create_datagram_endpoint(", "clean"),
     ]
